@@ -18,6 +18,7 @@ scheme, matching ratios, scale ratio, grids, evolution points, solution settings
        programs: alphas given at Qref, thresholds (k?Thr*m?)^2, XIF, the ModEv abbreviations EXA/EXP/TRN
   [D4] matchings.nf_default docstring: default flow = 3 flavours below the charm matching scale, +1 for every matching
        scale passed
+  [D6] src/ekobox/cards.py: the in-tree example theory card (n3lo_ad_variation all zero = no variation)
   [D5] extras/lh_bench_23/cfg.py: an in-tree theory card in the 0.13/0.14 layout (couplings.scale / num_flavs_ref /
        max_num_flavs, heavy.num_flavs_init / num_flavs_max_pdf / intrinsic_flavors)
 `read_current` reads the documented fields of TheoryCard / OperatorCard.
@@ -67,10 +68,13 @@ def old_theory(mk, var):
         "Qmc": mk.float("Qmc", 1.6, positive=True), "Qmb": mk.float("Qmb", 5.1, positive=True), "Qmt": mk.float("Qmt", 160.0, positive=True),
         "HQ": var.get("HQ", "POLE"), "XIF": mk.float("XIF", 1.0, positive=True),
         "Q0": mk.float("Q0", 1.65, positive=True), "nf0": None if var.get("nf0") == "none" else mk.int("nf0", 4, 3, 6),
-        "ModEv": MODEV[var.get("modev", 0) % len(MODEV)], "ModSV": MODSV[var.get("modsv", 0) % 3],
-        "backward_inversion": INVERSION[var.get("inv", 0) % 2],
+        "ModEv": MODEV[var.get("modev", 0) % len(MODEV)],
         "FNS": "ZM-VFNS", "NfFF": 3, "IC": 0, "IB": 0, "MaxNfPdf": 6, "MaxNfAs": 6, "Comments": "legacy",
     }
+    if var.get("modsv") != "absent":  # None is a legacy value too: no scale variation
+        th["ModSV"] = MODSV[var.get("modsv", 0) % 3]
+    if var.get("inv") != "absent":
+        th["backward_inversion"] = INVERSION[var.get("inv", 0) % 2]
     aem = var.get("aem", "alphaqed")
     if aem in ("alphaqed", "alphaem"):
         th[aem] = mk.float("aem", 0.0075, positive=True)
@@ -78,7 +82,7 @@ def old_theory(mk, var):
         th["Qedref"] = mk.float("Qedref", 91.2, positive=True)
     if var.get("extras"):
         th["n3lo_ad_variation"] = tuple(mk.int("n3lo%d" % i, i % 3, 0, 3) for i in range(7))
-        th["PTO_matching"] = [mk.int("PTOm", 1, 0, 3), 0]
+        th["PTO_matching"] = [mk.int("PTOm", 1, 0, 3), mk.int("PTOm_qed", 0, 0, 1)]
         th["use_fhmruvv"] = mk.bool("fhmruvv", False, tag="bool")
     return th
 
@@ -130,14 +134,14 @@ def read_legacy_theory(th):
     s["mass.scheme"] = {"POLE": QuarkMassScheme.POLE, "MSBAR": QuarkMassScheme.MSBAR}[th["HQ"]]
     s["xif"] = th["XIF"]  # [D2],[D3]
     if "PTO_matching" in th:
-        s["matching_order.qcd"] = th["PTO_matching"][0]
+        s["matching_order.qcd"], s["matching_order.qed"] = th["PTO_matching"][0], th["PTO_matching"][1]
     else:
         s["matching_order.qcd"] = th["PTO"]  # [D2] shifted by one w.r.t. order: (0,0) at LO
-    if "n3lo_ad_variation" in th:
-        for i, v in enumerate(th["n3lo_ad_variation"]):
-            s["n3lo_ad_variation.%d" % i] = v
-    if "use_fhmruvv" in th:
-        s["use_fhmruvv"] = th["use_fhmruvv"]
+        s["matching_order.qed"] = 0  # [D2] "QED OME are currently not available", default (order[0]-1, 0) whatever the QED order
+    for i in range(7):
+        # [D6] absent: no variation of the N3LO anomalous dimensions (all-zero tuple of the in-tree example card)
+        s["n3lo_ad_variation.%d" % i] = th["n3lo_ad_variation"][i] if "n3lo_ad_variation" in th else 0
+    s["use_fhmruvv"] = th["use_fhmruvv"] if "use_fhmruvv" in th else True  # [D2] default of TheoryCard.use_fhmruvv
     return s
 
 
@@ -152,7 +156,7 @@ def read_current_theory(t):
         s["matching_ratio.%s" % q] = t.heavy.matching_ratios[i]
     s["mass.scheme"] = t.heavy.masses_scheme
     s["xif"] = t.xif
-    s["matching_order.qcd"] = t.matching_order[0]
+    s["matching_order.qcd"], s["matching_order.qed"] = t.matching_order[0], t.matching_order[1]
     for i, v in enumerate(t.n3lo_ad_variation):
         s["n3lo_ad_variation.%d" % i] = v
     s["use_fhmruvv"] = t.use_fhmruvv
@@ -174,8 +178,10 @@ def read_legacy_operator(th, op):
             s["mu.%d" % i] = ("sq", q2)  # [D1] values of Q^2; [D2] the card stores linear scales
     ev = th["ModEv"]
     s["method"] = EvolutionMethod(MODEV_MEANING.get(ev, ev))
-    s["scvar"] = None if th["ModSV"] is None else ScaleVariationsMethod(th["ModSV"])
-    s["inversion"] = InversionMethod(th["backward_inversion"])
+    if "ModSV" in th:  # absent: the legacy card does not say; any method is accepted, the upgrade only has to succeed
+        s["scvar"] = None if th["ModSV"] is None else ScaleVariationsMethod(th["ModSV"])
+    if "backward_inversion" in th:
+        s["inversion"] = InversionMethod(th["backward_inversion"])
     s["interp.degree"] = op["interpolation_polynomial_degree"]
     s["interp.is_log"] = op["interpolation_is_log"]
     s["iterations"] = op["ev_op_iterations"]
@@ -492,11 +498,12 @@ def read_v_theory(th, version):
     for i, v in enumerate(th["n3lo_ad_variation"]):
         s["n3lo_ad_variation.%d" % i] = v
     if "matching_order" in th:
-        s["matching_order.qcd"] = th["matching_order"][0]
+        s["matching_order.qcd"], s["matching_order.qed"] = th["matching_order"][0], th["matching_order"][1]
     else:
         # [D2] "If not provided it will use this assumption as default": before the key existed the matching
         # conditions were always one order below the evolution
         s["matching_order.qcd"] = th["order"][0] - 1
+        s["matching_order.qed"] = 0
     for k in ("use_fhmruvv", "use_fhmv"):
         if k in th:
             s["use_fhmruvv"] = th[k]
@@ -694,14 +701,14 @@ def main():
         "HQ in {POLE, MSBAR}; alpha_em given as alphaqed / alphaem / absent; Qedref present / absent; optional keys (n3lo_ad_variation, PTO_matching, "
         "use_fhmruvv) all present / all absent",
         "legacy operator cards: x grid of 3 symbolic points, 1..2 evolution points given as mugrid / Q2grid / mu2grid, all 11 ModEv spellings, "
-        "ModSV in {None, exponentiated, expanded}, backward_inversion in {exact, expanded}, nf0 given / None; matching scales k_c m_c < k_b m_b < k_t m_t",
+        "ModSV in {None, exponentiated, expanded, key absent}, backward_inversion in {exact, expanded, key absent}, nf0 given / None; matching scales k_c m_c < k_b m_b < k_t m_t",
         "data versions 1 and 2: theory and operator cards in the 0.13/0.14 layout of extras/lh_bench_23/cfg.py, call sequence of EKO.theory_card / "
         "EKO.operator_card; v1: use_fhmv / use_fhmruvv / neither, no matching_order key; v2: use_fhmruvv / neither, matching_order present",
     ]
     chk.out_of_claim = [
         "archives (tar/yaml/npy), operators, Metadata.load and v1/v2.update_metadata: no documentation of the old metadata layout in the repository",
-        "legacy keys without a documented meaning in the repository: em_running (derived from Qedref by the converter), defaults used when ModSV / "
-        "backward_inversion are absent, both alphaqed and alphaem present, the QED entry of ev_op_max_order, nfref = None, FNS/NfFF/IC/IB/MaxNf*",
+        "legacy keys without a documented meaning in the repository: em_running (derived from Qedref by the converter), WHICH method is chosen when "
+        "ModSV / backward_inversion are absent (the upgrade must succeed and carry every other setting), both alphaqed and alphaem present, the QED entry of ev_op_max_order, nfref = None, FNS/NfFF/IC/IB/MaxNf*",
         "xgrid.log of the upgraded operator card (C40 reports that interpolation_is_log is not transferred to the grid)",
         "evolution points exactly on a matching scale (either number of flavours accepted); unsorted matching scales",
         "n_integration_cores (not a physical setting; v1 resets it to 1)",
@@ -721,6 +728,8 @@ def main():
     for g in ("mugrid", "Q2grid", "mu2grid"):
         op_items.append({"modev": 0, "grid": g, "nmu": 1, "nf0": "none"})
     op_items.append({"modev": 1, "grid": "Q2grid", "nmu": 2})
+    op_items.append({"modev": 2, "modsv": "absent", "inv": "absent", "grid": "mugrid", "nmu": 1})
+    op_items.append({"modev": 4, "modsv": "absent", "inv": 1, "grid": "mu2grid", "nmu": 1, "HQ": "MSBAR"})
     if thorough:
         for g in ("mugrid", "Q2grid", "mu2grid"):
             op_items.append({"modev": 2, "grid": g, "nmu": 2, "nf0": "none"})
